@@ -427,7 +427,9 @@ def build(P):
     def c08_cases(tier, seed):
         lits = {"INTEGER": ("5", "6"), "NEGINT": ("- 5", "6"), "REAL": ("2.5", "3.5"), "BOOLEAN": ("TRUE", "FALSE"), "CHAR": ("'c'", "'d'"), "STRING": ('"str"', '"other"')}
         tyof = {"NEGINT": "INTEGER"}
-        forms = ["assign", "for", "input", "read", "readfile", "getrecord", "byref", "deref", "byref-chain", "fn-byref", "redeclare", "reconst", "input-deref", "byref-input", "deref-copy", "reconst-same", "for-in-proc", "getrecord-byref"]
+        forms = ["assign", "for", "input", "read", "readfile", "getrecord", "byref", "deref", "byref-chain", "fn-byref", "redeclare", "reconst", "input-deref", "byref-input", "deref-copy", "reconst-same", "for-in-proc", "getrecord-byref",
+                 # end-of-file reads, and writing statements that run FIRST on a variable and THEN on the constant (one source statement, two targets)
+                 "readfile-eof", "readfile-empty", "readfile-eof-byref", "reuse-assign", "reuse-input", "reuse-readfile", "reuse-getrecord", "reuse-deref-loop", "reuse-deref-proc", "reuse-for"]
         progs = []
         for lt, (v, w) in lits.items():
             ty = tyof.get(lt, lt)
@@ -459,6 +461,31 @@ def build(P):
                                                           "PROCEDURE P(BYREF x : %s)" % ty, "GETRECORD \"r.dat\", x", "ENDPROCEDURE", "CALL P(K)"]
                     elif form == "redeclare": L += ["DECLARE K : %s" % ty]
                     elif form == "reconst": L += ["CONSTANT K = %s" % w]
+                    elif form == "readfile-eof":
+                        files = {"in.txt": ("f", b"line1\nline2\n")}
+                        L += ["OPENFILE \"in.txt\" FOR READ", "READFILE \"in.txt\", s1", "READFILE \"in.txt\", s2", "OUTPUT EOF(\"in.txt\")", "READFILE \"in.txt\", K"]
+                    elif form == "readfile-empty":
+                        files = {"in.txt": ("f", b"")}
+                        L += ["OPENFILE \"in.txt\" FOR READ", "OUTPUT EOF(\"in.txt\")", "READFILE \"in.txt\", K"]
+                    elif form == "readfile-eof-byref":
+                        files = {"in.txt": ("f", b"only\n")}
+                        L += ["PROCEDURE P(BYREF x : %s)" % ty, "READFILE \"in.txt\", x", "ENDPROCEDURE", "OPENFILE \"in.txt\" FOR READ", "READFILE \"in.txt\", s1", "CALL P(K)"]
+                    elif form.startswith("reuse-"):
+                        L += ["DECLARE v : %s" % ty, "v <- %s" % w]
+                        if form == "reuse-assign": L += ["PROCEDURE P(BYREF x : %s)" % ty, "x <- %s" % w, "ENDPROCEDURE", "CALL P(v)", "OUTPUT \"v=\", v", "CALL P(K)"]
+                        elif form == "reuse-input": L += ["PROCEDURE P(BYREF x : %s)" % ty, "INPUT x", "ENDPROCEDURE", "CALL P(v)", "CALL P(K)"]
+                        elif form == "reuse-readfile":
+                            files = {"in.txt": ("f", b"line1\nline2\nline3\n")}
+                            L += ["PROCEDURE P(BYREF x : %s)" % ty, "READFILE \"in.txt\", x", "ENDPROCEDURE", "OPENFILE \"in.txt\" FOR READ", "CALL P(v)", "CALL P(K)"]
+                        elif form == "reuse-getrecord":
+                            L += ["OPENFILE \"r.dat\" FOR RANDOM", "PUTRECORD \"r.dat\", v", "PROCEDURE P(BYREF x : %s)" % ty, "SEEK \"r.dat\", 1", "GETRECORD \"r.dat\", x", "ENDPROCEDURE", "CALL P(v)", "CALL P(K)"]
+                        elif form == "reuse-deref-loop":
+                            L += ["TYPE PT = ^%s" % ty, "DECLARE p : PT", "FOR pass <- 1 TO 2", "IF pass = 1 THEN", "p <- ^v", "ELSE", "p <- ^K", "ENDIF", "p^ <- %s" % w, "OUTPUT \"pass \", pass", "NEXT pass"]
+                        elif form == "reuse-deref-proc":
+                            L += ["TYPE PT = ^%s" % ty, "DECLARE p : PT", "PROCEDURE D(q : PT)", "q^ <- %s" % w, "ENDPROCEDURE", "p <- ^v", "CALL D(p)", "p <- ^K", "CALL D(p)"]
+                        elif form == "reuse-for":
+                            if ty != "INTEGER": continue
+                            L += ["PROCEDURE P(BYREF x : INTEGER)", "FOR x <- 1 TO 2", "OUTPUT \"body\"", "NEXT x", "ENDPROCEDURE", "CALL P(v)", "CALL P(K)"]
                     L += ["OUTPUT \"not reached K=\", K"]
                     prog = ("\n".join(L) + "\n").encode()
                     progs.append(Case(id="C08-%s-%s-%s" % (lt, form, "eq" if eq == "=" else "as"), prog=prog, stdin=b"99\n88\n", files=dict(files),
@@ -526,6 +553,17 @@ def build(P):
 
     def c09_cases(tier, seed):
         shapes = [
+            # a pointer that HAS a live target is overwritten with a never-set pointer (every destination kind and channel): it must be unset afterwards
+            "TYPE P = ^INTEGER\nDECLARE p, q : P\nx <- 5\np <- ^x\nOUTPUT p^\np <- q\nOUTPUT \"assigned\"\nOUTPUT p^\nOUTPUT \"not reached\"",
+            "TYPE P = ^INTEGER\nDECLARE p, q : P\nx <- 5\np <- ^x\np <- q\np^ <- 9\nOUTPUT \"not reached \", x",
+            "TYPE P = ^INTEGER\nDECLARE p, q : P\nPROCEDURE S(BYREF d : P, s : P)\nd <- s\nENDPROCEDURE\nx <- 5\np <- ^x\nCALL S(p, q)\nOUTPUT \"assigned\"\nOUTPUT p^",
+            "TYPE P = ^INTEGER\nTYPE R\nDECLARE f : P\nDECLARE k : INTEGER\nENDTYPE\nDECLARE r : R\nDECLARE q : P\nx <- 5\nr.f <- ^x\nOUTPUT r.f^\nr.f <- q\nOUTPUT \"assigned\"\nOUTPUT r.f^",
+            "TYPE P = ^INTEGER\nDECLARE a : ARRAY[1:2] OF P\nDECLARE q : P\nx <- 5\na[1] <- ^x\nOUTPUT a[1]^\na[1] <- q\nOUTPUT \"assigned\"\nOUTPUT a[1]^",
+            "TYPE P = ^INTEGER\nDECLARE a : ARRAY[1:2] OF P\nx <- 5\na[1] <- ^x\na[1] <- a[2]\nOUTPUT \"assigned\"\nOUTPUT a[1]^",
+            "TYPE P = ^INTEGER\nTYPE R\nDECLARE f : P\nENDTYPE\nDECLARE r, r2 : R\nx <- 5\nr.f <- ^x\nr <- r2\nOUTPUT \"assigned\"\nOUTPUT r.f^",
+            "TYPE P = ^INTEGER\nDECLARE a, b : ARRAY[1:2] OF P\nx <- 5\na[2] <- ^x\na <- b\nOUTPUT \"assigned\"\nOUTPUT a[2]^",
+            "TYPE P = ^INTEGER\nDECLARE p : P\nFUNCTION Unset() RETURNS P\nDECLARE loc : P\nRETURN loc\nENDFUNCTION\nx <- 5\np <- ^x\np <- Unset()\nOUTPUT \"assigned\"\nOUTPUT p^",
+            "TYPE P = ^INTEGER\nDECLARE p, q : P\nx <- 5\ny <- 6\np <- ^x\nq <- ^y\np <- q\nOUTPUT p^\ny <- 7\nOUTPUT p^\nDECLARE u : P\nq <- u\nOUTPUT p^\nOUTPUT q^",
             "TYPE P = ^INTEGER\nDECLARE p, q : P\nx <- 5\np <- ^x\nOUTPUT p^\nx <- 6\nOUTPUT p^\np^ <- 7\nOUTPUT x\nq <- p\nq^ <- 8\nOUTPUT x, p^",
             "TYPE P = ^INTEGER\nDECLARE p : P\nOUTPUT p^", "TYPE P = ^INTEGER\nDECLARE p : P\np^ <- 1", "TYPE P = ^INTEGER\nDECLARE p : P\np",
             "TYPE P = ^INTEGER\nDECLARE p : P\ns <- \"a\"\np <- ^s", "TYPE P = ^INTEGER\nDECLARE p : P\nDECLARE a : ARRAY[1:2] OF INTEGER\np <- ^a", "x <- 1\nq <- 2\nq <- ^x",
